@@ -1,6 +1,1588 @@
-//! Component `alloc` (see /verif/FRAMEWORK.md).
+//! Component `alloc` — worker-side resource allocator (C04, C16).
+//!
+//! Drives the real `ResourceAllocator` of `/repo` through `tako::verif::alloc::VerifAllocator` and prints
+//! the trace protocol of `/verif/notes/alloc.md`. `gen` generates cases, `replay` re-executes the
+//! `case`/`op` lines of a trace read from stdin (choices are recomputed from the real run).
+use crate::util::{GenArgs, Rng, Trace, catch, list};
+use smallvec::SmallVec;
+use std::collections::{BTreeMap, BTreeSet};
+use std::io::BufRead;
+use std::rc::Rc;
+use std::time::Duration;
+use tako::resources::{
+    Allocation, AllocationRequest, ResourceAllocRequest, ResourceAmount, ResourceDescriptor,
+    ResourceDescriptorCoupling, ResourceDescriptorCouplingItem, ResourceDescriptorItem,
+    ResourceDescriptorKind, ResourceRequest, ResourceWeight,
+};
+use tako::verif::alloc::{
+    AllocatorSnapshot, ConciseSnapshot, PoolSnapshot, SolverRecord, VerifAllocator,
+    clear_solver_log, take_solver_log,
+};
 
-pub fn main(mode: &str, _args: &[String]) {
-    eprintln!("component alloc: mode {mode} not implemented yet");
-    std::process::exit(2);
+const FPU: u64 = 10_000;
+
+// ------------------------------------------------------------------------------------------------
+// Case description
+// ------------------------------------------------------------------------------------------------
+
+#[derive(Clone, Debug, PartialEq, Eq)]
+pub enum Kind {
+    List(u32),
+    Range(u32, u32),
+    Groups(Vec<u32>),
+    /// size in fractions
+    Sum(u64),
+}
+
+#[derive(Clone, Copy, Debug, PartialEq, Eq, PartialOrd, Ord)]
+pub enum Pol {
+    C,
+    FC,
+    T,
+    FT,
+    S,
+    A,
+}
+
+impl Pol {
+    fn tok(self) -> &'static str {
+        match self {
+            Pol::C => "C",
+            Pol::FC => "FC",
+            Pol::T => "T",
+            Pol::FT => "FT",
+            Pol::S => "S",
+            Pol::A => "A",
+        }
+    }
+    fn is_force(self) -> bool {
+        matches!(self, Pol::FC | Pol::FT)
+    }
+    fn is_coupling(self) -> bool {
+        matches!(self, Pol::C | Pol::FC | Pol::T | Pol::FT)
+    }
+}
+
+/// (rid, policy, amount in fractions; ignored for `A`)
+pub type RqEntry = (u32, Pol, u64);
+pub type Rq = Vec<RqEntry>;
+
+#[derive(Clone, Debug)]
+pub enum Op {
+    Init,
+    Enabled(Rq),
+    Alloc(Rq),
+    Release(usize),
+}
+
+#[derive(Clone, Debug, Default)]
+pub struct Case {
+    pub items: Vec<(u32, Kind)>,
+    /// (resource1_idx, group1_idx, resource2_idx, group2_idx, weight); resource idx = position in `items`
+    pub couplings: Vec<(u8, u8, u8, u8, u16)>,
+    pub ops: Vec<Op>,
+}
+
+fn amount_of(x: u64) -> ResourceAmount {
+    ResourceAmount::new((x / FPU) as u32, (x % FPU) as u32)
+}
+
+fn build_descriptor(case: &Case) -> (ResourceDescriptor, Vec<String>) {
+    let mut resources = Vec::new();
+    for (rid, kind) in &case.items {
+        let kind = match kind {
+            Kind::List(n) => ResourceDescriptorKind::List {
+                values: (0..*n).map(|i| format!("a{i}")).collect(),
+            },
+            Kind::Range(s, e) => ResourceDescriptorKind::Range {
+                start: (*s).into(),
+                end: (*e).into(),
+            },
+            Kind::Groups(sizes) => {
+                let mut k = 0;
+                ResourceDescriptorKind::Groups {
+                    groups: sizes
+                        .iter()
+                        .map(|n| {
+                            (0..*n)
+                                .map(|_| {
+                                    k += 1;
+                                    format!("a{}", k - 1)
+                                })
+                                .collect()
+                        })
+                        .collect(),
+                }
+            }
+            Kind::Sum(size) => ResourceDescriptorKind::Sum {
+                size: amount_of(*size),
+            },
+        };
+        resources.push(ResourceDescriptorItem {
+            name: format!("r{rid}"),
+            kind,
+        });
+    }
+    let weights = case
+        .couplings
+        .iter()
+        .map(|&(i1, g1, i2, g2, w)| ResourceDescriptorCouplingItem {
+            resource1_idx: i1,
+            group1_idx: g1.into(),
+            resource2_idx: i2,
+            group2_idx: g2.into(),
+            weight: w,
+        })
+        .collect();
+    let n = case.items.iter().map(|(r, _)| *r).max().map(|m| m + 1).unwrap_or(0);
+    let names = (0..n).map(|i| format!("r{i}")).collect();
+    (
+        ResourceDescriptor::new(resources, ResourceDescriptorCoupling { weights }),
+        names,
+    )
+}
+
+fn build_request(rq: &Rq) -> ResourceRequest {
+    let entries: SmallVec<[ResourceAllocRequest; 3]> = rq
+        .iter()
+        .map(|&(rid, pol, amount)| {
+            let a = amount_of(amount);
+            ResourceAllocRequest {
+                resource_id: rid.into(),
+                request: match pol {
+                    Pol::C => AllocationRequest::Compact(a),
+                    Pol::FC => AllocationRequest::ForceCompact(a),
+                    Pol::T => AllocationRequest::Tight(a),
+                    Pol::FT => AllocationRequest::ForceTight(a),
+                    Pol::S => AllocationRequest::Scatter(a),
+                    Pol::A => AllocationRequest::All,
+                },
+            }
+        })
+        .collect();
+    ResourceRequest::new(0, Duration::ZERO, entries, ResourceWeight::default())
+}
+
+/// The request as the real code sees it (`entries()` order).
+fn entries_of(req: &ResourceRequest) -> Rq {
+    req.entries()
+        .iter()
+        .map(|e| {
+            let rid = e.resource_id.as_num();
+            match &e.request {
+                AllocationRequest::Compact(a) => (rid, Pol::C, a.total_fractions()),
+                AllocationRequest::ForceCompact(a) => (rid, Pol::FC, a.total_fractions()),
+                AllocationRequest::Tight(a) => (rid, Pol::T, a.total_fractions()),
+                AllocationRequest::ForceTight(a) => (rid, Pol::FT, a.total_fractions()),
+                AllocationRequest::Scatter(a) => (rid, Pol::S, a.total_fractions()),
+                AllocationRequest::All => (rid, Pol::A, 0),
+            }
+        })
+        .collect()
+}
+
+// ------------------------------------------------------------------------------------------------
+// Formatting
+// ------------------------------------------------------------------------------------------------
+
+fn header_params(case: &Case) -> String {
+    let mut toks = Vec::new();
+    for (rid, kind) in &case.items {
+        toks.push(match kind {
+            Kind::List(n) => format!("d:{rid}:L:{n}"),
+            Kind::Range(s, e) => format!("d:{rid}:R:{s}:{e}"),
+            Kind::Groups(sizes) => format!(
+                "d:{rid}:G:{}",
+                sizes.iter().map(|x| x.to_string()).collect::<Vec<_>>().join(".")
+            ),
+            Kind::Sum(size) => format!("d:{rid}:S:{size}"),
+        });
+    }
+    for (i1, g1, i2, g2, w) in &case.couplings {
+        toks.push(format!("w:{i1}:{g1}:{i2}:{g2}:{w}"));
+    }
+    toks.join(" ")
+}
+
+fn rq_string(entries: &Rq) -> String {
+    list(entries.iter().map(|&(rid, pol, amount)| {
+        if pol == Pol::A {
+            format!("{rid}:A")
+        } else {
+            format!("{rid}:{}:{amount}", pol.tok())
+        }
+    }))
+}
+
+fn sol_string(log: &[SolverRecord]) -> String {
+    if log.is_empty() {
+        return "-".to_string();
+    }
+    log.iter()
+        .map(|rec| match rec {
+            None => "N".to_string(),
+            Some((sets, obj)) => {
+                let obj = (obj * 20000.0).round() as i64;
+                let sets = sets
+                    .iter()
+                    .map(|s| {
+                        if s.is_empty() {
+                            "e".to_string()
+                        } else {
+                            let mut s = s.clone();
+                            s.sort_unstable();
+                            s.iter().map(|g| g.to_string()).collect::<Vec<_>>().join(".")
+                        }
+                    })
+                    .collect::<Vec<_>>()
+                    .join("+");
+                format!("{obj}@{sets}")
+            }
+        })
+        .collect::<Vec<_>>()
+        .join("/")
+}
+
+fn fp_string(a: Option<&Allocation>) -> String {
+    let Some(a) = a else {
+        return "-".to_string();
+    };
+    list(a.resources.iter().filter_map(|ra| {
+        ra.indices
+            .last()
+            .filter(|last| last.fractions > 0)
+            .map(|last| format!("{}:{}", ra.resource_id.as_num(), last.index.as_num()))
+    }))
+}
+
+fn frac_string(fr: &[(u32, u32)]) -> String {
+    list(fr.iter().map(|(i, v)| format!("{i}:{v}")))
+}
+
+fn bar<T>(xs: &[T], f: impl Fn(&T) -> String) -> String {
+    if xs.is_empty() {
+        "-".to_string()
+    } else {
+        xs.iter().map(f).collect::<Vec<_>>().join("|")
+    }
+}
+
+fn print_snapshot(t: &mut Trace, s: &AllocatorSnapshot) {
+    for (r, p) in s.pools.iter().enumerate() {
+        match p {
+            PoolSnapshot::Empty => t.out(&format!("pool {r} E")),
+            PoolSnapshot::Indices { full, free, fractions } => t.out(&format!(
+                "pool {r} I {full} {} {}",
+                list(free.iter()),
+                frac_string(fractions)
+            )),
+            PoolSnapshot::Groups { full, free, fractions } => t.out(&format!(
+                "pool {r} G {full} {} {}",
+                bar(free, |g| list(g.iter())),
+                bar(fractions, |g| frac_string(g))
+            )),
+            PoolSnapshot::Sum { full, free } => t.out(&format!("pool {r} S {full} {free}")),
+        }
+    }
+    for (r, c) in s.concise.iter().enumerate() {
+        t.out(&format!(
+            "concise {r} {}",
+            bar(&c.0, |(units, fr)| format!("{units}/{}", frac_string(fr)))
+        ));
+    }
+}
+
+fn panic_kw(msg: &str) -> &'static str {
+    if msg.contains("unreachable") {
+        "unreachable"
+    } else if msg.contains("unwrap") {
+        "unwrap"
+    } else if msg.contains("assert") {
+        "assert"
+    } else if msg.contains("index out of bounds") || msg.contains("out of range") {
+        "oob"
+    } else if msg.contains("overflow") {
+        "overflow"
+    } else {
+        "other"
+    }
+}
+
+// ------------------------------------------------------------------------------------------------
+// Reference computations for the monitors (independent of the implementation's arithmetic)
+// ------------------------------------------------------------------------------------------------
+
+#[derive(Clone, Debug, PartialEq, Eq)]
+struct GroupState {
+    free: Vec<u32>,
+    fr: Vec<(u32, u32)>,
+}
+
+#[derive(Clone, Debug, PartialEq, Eq)]
+enum PoolView {
+    Empty,
+    /// `is_groups`: `ResourcePool::Groups` (even with a single group)
+    Idx { is_groups: bool, full: u64, groups: Vec<GroupState> },
+    Sum { full: u64, free: u64 },
+}
+
+fn view(p: &PoolSnapshot) -> PoolView {
+    match p {
+        PoolSnapshot::Empty => PoolView::Empty,
+        PoolSnapshot::Indices { full, free, fractions } => PoolView::Idx {
+            is_groups: false,
+            full: *full,
+            groups: vec![GroupState { free: free.clone(), fr: fractions.clone() }],
+        },
+        PoolSnapshot::Groups { full, free, fractions } => PoolView::Idx {
+            is_groups: true,
+            full: *full,
+            groups: free
+                .iter()
+                .enumerate()
+                .map(|(g, f)| GroupState {
+                    free: f.clone(),
+                    fr: fractions.get(g).cloned().unwrap_or_default(),
+                })
+                .collect(),
+        },
+        PoolSnapshot::Sum { full, free } => PoolView::Sum { full: *full, free: *free },
+    }
+}
+
+fn views(s: &AllocatorSnapshot) -> Vec<PoolView> {
+    s.pools.iter().map(view).collect()
+}
+
+/// Normal form used to compare states "as multisets per group".
+#[derive(Debug, PartialEq, Eq)]
+enum NormPool {
+    Empty,
+    Idx(Vec<(Vec<u32>, Vec<(u32, u32)>)>),
+    Sum(u64),
+}
+
+fn normalize(s: &AllocatorSnapshot) -> Vec<NormPool> {
+    views(s)
+        .into_iter()
+        .map(|p| match p {
+            PoolView::Empty => NormPool::Empty,
+            PoolView::Sum { free, .. } => NormPool::Sum(free),
+            PoolView::Idx { groups, .. } => NormPool::Idx(
+                groups
+                    .into_iter()
+                    .map(|g| {
+                        let mut free = g.free;
+                        free.sort_unstable();
+                        let fr = g.fr.into_iter().filter(|(_, v)| *v > 0).collect();
+                        (free, fr)
+                    })
+                    .collect(),
+            ),
+        })
+        .collect()
+}
+
+fn strip(c: &[(u32, Vec<(u32, u32)>)]) -> Vec<(u32, Vec<(u32, u32)>)> {
+    c.iter()
+        .map(|(u, fr)| (*u, fr.iter().copied().filter(|(_, v)| *v > 0).collect()))
+        .collect()
+}
+
+fn summary_of(p: &PoolView) -> Vec<(u32, Vec<(u32, u32)>)> {
+    match p {
+        PoolView::Empty => vec![],
+        PoolView::Sum { free, .. } => {
+            let fr = (free % FPU) as u32;
+            vec![((free / FPU) as u32, if fr > 0 { vec![(0, fr)] } else { vec![] })]
+        }
+        PoolView::Idx { groups, .. } => {
+            groups.iter().map(|g| (g.free.len() as u32, g.fr.clone())).collect()
+        }
+    }
+}
+
+/// Is `amount` available in the pool (reference of c16.admit)?
+fn entry_available(pool: Option<&PoolView>, universe: Option<&BTreeSet<(u32, u32)>>, e: &RqEntry) -> bool {
+    let (_, pol, amount) = *e;
+    match pool {
+        None | Some(PoolView::Empty) => false,
+        Some(PoolView::Sum { full, free }) => {
+            if pol == Pol::A { free == full } else { amount <= *free }
+        }
+        Some(PoolView::Idx { groups, .. }) => {
+            let w: u64 = groups.iter().map(|g| g.free.len() as u64).sum();
+            if pol == Pol::A {
+                let free: BTreeSet<(u32, u32)> = groups
+                    .iter()
+                    .enumerate()
+                    .flat_map(|(g, gs)| gs.free.iter().map(move |i| (g as u32, *i)))
+                    .collect();
+                universe.is_some_and(|u| *u == free)
+            } else {
+                let (u, f) = (amount / FPU, amount % FPU);
+                u <= w && (f == 0 || u < w || groups.iter().any(|g| g.fr.iter().any(|(_, v)| *v as u64 >= f)))
+            }
+        }
+    }
+}
+
+/// Minimum cardinality of a feasible group subset (brute force); `None` if there is none.
+fn min_groups(groups: &[GroupState], amount: u64) -> Option<usize> {
+    let (u, f) = (amount / FPU, amount % FPU);
+    let n = groups.len().min(16);
+    let mut best: Option<usize> = None;
+    for mask in 0u32..(1u32 << n) {
+        let mut units = 0u64;
+        let mut has_frac = false;
+        for (g, gs) in groups.iter().enumerate().take(n) {
+            if mask & (1 << g) != 0 {
+                units += gs.free.len() as u64;
+                if gs.fr.iter().any(|(_, v)| *v as u64 >= f) {
+                    has_frac = true;
+                }
+            }
+        }
+        if units >= u && (f == 0 || units >= u + 1 || has_frac) {
+            let c = mask.count_ones() as usize;
+            if best.is_none_or(|b| c < b) {
+                best = Some(c);
+            }
+        }
+    }
+    best
+}
+
+// ------------------------------------------------------------------------------------------------
+// Statistics (stderr, `--stats`)
+// ------------------------------------------------------------------------------------------------
+
+#[derive(Default)]
+pub struct Stats {
+    cases: u64,
+    cases_with_coupling: u64,
+    ops: BTreeMap<&'static str, u64>,
+    granted: u64,
+    refused: u64,
+    forced_refused: u64,
+    forced_granted: u64,
+    allocs_active_coupling: u64,
+    /// (pool kind, policy) -> (entries of granted requests, unavailable entries of refused requests, available entries of refused requests)
+    per: BTreeMap<(&'static str, Pol), (u64, u64, u64)>,
+    panics: BTreeMap<String, u64>,
+    solver_calls: u64,
+    solver_none: u64,
+    ops_with_fp: u64,
+    fp_from_map: u64,
+    mon_fails: BTreeMap<String, u64>,
+    enabled_true: u64,
+    enabled_false: u64,
+    zero_amount_rq: u64,
+}
+
+impl Stats {
+    fn op(&mut self, name: &'static str) {
+        *self.ops.entry(name).or_default() += 1;
+    }
+    fn print(&self) {
+        eprintln!("== alloc stats ==");
+        eprintln!("cases {} (with couplings {})", self.cases, self.cases_with_coupling);
+        eprintln!("ops {:?}", self.ops);
+        eprintln!(
+            "alloc: granted {} refused {} | requests with Force* on groups: granted {} refused-although-available {} | allocs with active coupling {}",
+            self.granted, self.refused, self.forced_granted, self.forced_refused, self.allocs_active_coupling
+        );
+        eprintln!("enabled: true {} false {}", self.enabled_true, self.enabled_false);
+        eprintln!("requests with a zero amount entry: {}", self.zero_amount_rq);
+        eprintln!("per (pool kind, policy): entries granted / refused+unavailable / refused+available");
+        for ((k, p), (a, b, c)) in &self.per {
+            eprintln!("  {k:>7} {:>2}: {a:>5} {b:>5} {c:>5}", p.tok());
+        }
+        eprintln!("panics {:?}", self.panics);
+        eprintln!("solver calls {} (N: {})", self.solver_calls, self.solver_none);
+        eprintln!("alloc ops with fp {} (picked from fraction map: {})", self.ops_with_fp, self.fp_from_map);
+        eprintln!("monitor failures {:?}", self.mon_fails);
+    }
+}
+
+// ------------------------------------------------------------------------------------------------
+// Executor (real code + monitors)
+// ------------------------------------------------------------------------------------------------
+
+struct Mon<'a> {
+    t: &'a mut Trace,
+    stats: &'a mut Stats,
+}
+
+impl Mon<'_> {
+    fn fail(&mut self, clause: &str, sig: &str, detail: String) {
+        *self.stats.mon_fails.entry(format!("{clause}/{sig}")).or_default() += 1;
+        self.t.mon_fail(clause, sig, &detail);
+    }
+}
+
+fn kind_name(p: Option<&PoolView>) -> &'static str {
+    match p {
+        None => "missing",
+        Some(PoolView::Empty) => "empty",
+        Some(PoolView::Sum { .. }) => "sum",
+        Some(PoolView::Idx { is_groups: false, .. }) => "indices",
+        Some(PoolView::Idx { is_groups: true, groups, .. }) => {
+            if groups.len() == 1 { "groups1" } else { "groups" }
+        }
+    }
+}
+
+/// State monitors evaluated after every op: c04.conserve, c04.concise.
+fn state_monitors(
+    m: &mut Mon,
+    snap: &AllocatorSnapshot,
+    universe: &[BTreeSet<(u32, u32)>],
+    live: &[(usize, Rc<Allocation>)],
+) {
+    let pools = views(snap);
+    // held[(rid, g, i)] = amount held by live allocations; sum_held[rid] = amounts of live allocations
+    let mut held: BTreeMap<(u32, u32, u32), u64> = BTreeMap::new();
+    let mut sum_held: BTreeMap<u32, u64> = BTreeMap::new();
+    for (_, a) in live {
+        for ra in &a.resources {
+            let rid = ra.resource_id.as_num();
+            *sum_held.entry(rid).or_default() += ra.amount.total_fractions();
+            for ai in &ra.indices {
+                let v = if ai.fractions == 0 { FPU } else { ai.fractions as u64 };
+                *held.entry((rid, ai.group_idx, ai.index.as_num())).or_default() += v;
+            }
+        }
+    }
+    for (rid, p) in pools.iter().enumerate() {
+        let rid = rid as u32;
+        match p {
+            PoolView::Empty => {
+                if sum_held.contains_key(&rid) {
+                    m.fail("c04.conserve", "foreign-index", format!("live allocation on empty pool {rid}"));
+                }
+            }
+            PoolView::Sum { full, free } => {
+                let h = sum_held.get(&rid).copied().unwrap_or(0);
+                if free + h != *full {
+                    m.fail("c04.conserve", "sum", format!("pool {rid}: free {free} + held {h} != full {full}"));
+                }
+            }
+            PoolView::Idx { groups, .. } => {
+                let uni = &universe[rid as usize];
+                let mut free_amt: BTreeMap<(u32, u32), u64> = BTreeMap::new();
+                for (g, gs) in groups.iter().enumerate() {
+                    let g = g as u32;
+                    for i in &gs.free {
+                        let e = free_amt.entry((g, *i)).or_default();
+                        if *e >= FPU {
+                            m.fail("c04.conserve", "dup-free", format!("pool {rid} group {g} index {i} listed twice as free"));
+                        }
+                        *e += FPU;
+                    }
+                    for (i, v) in &gs.fr {
+                        if *v as u64 >= FPU {
+                            m.fail("c04.conserve", "frac-range", format!("pool {rid} group {g} index {i} fraction {v}"));
+                        }
+                        if *v > 0 && gs.free.contains(i) {
+                            m.fail("c04.conserve", "dup-free", format!("pool {rid} group {g} index {i} free and in fraction map with {v}"));
+                        }
+                        *free_amt.entry((g, *i)).or_default() += *v as u64;
+                    }
+                }
+                for (g, i) in uni {
+                    let f = free_amt.get(&(*g, *i)).copied().unwrap_or(0);
+                    let h = held.get(&(rid, *g, *i)).copied().unwrap_or(0);
+                    if f + h > FPU {
+                        m.fail("c04.conserve", "index-over", format!("pool {rid} group {g} index {i}: free {f} + held {h} > {FPU}"));
+                    } else if f + h < FPU {
+                        m.fail("c04.conserve", "index-lost", format!("pool {rid} group {g} index {i}: free {f} + held {h} < {FPU}"));
+                    }
+                }
+                for (g, i) in free_amt.keys() {
+                    if !uni.contains(&(*g, *i)) {
+                        m.fail("c04.conserve", "foreign-index", format!("pool {rid}: free state mentions group {g} index {i} outside the universe"));
+                    }
+                }
+                for (r, g, i) in held.keys() {
+                    if *r == rid && !uni.contains(&(*g, *i)) {
+                        m.fail("c04.conserve", "foreign-index", format!("pool {rid}: live allocation holds group {g} index {i} outside the universe"));
+                    }
+                }
+            }
+        }
+    }
+    for rid in sum_held.keys() {
+        if *rid as usize >= pools.len() {
+            m.fail("c04.conserve", "foreign-index", format!("live allocation on unknown pool {rid}"));
+        }
+    }
+    // c04.concise
+    for (rid, p) in pools.iter().enumerate() {
+        let expect = strip(&summary_of(p));
+        let got = snap.concise.get(rid).map(|c: &ConciseSnapshot| strip(&c.0));
+        if got.as_ref() != Some(&expect) {
+            m.fail("c04.concise", "mismatch", format!("pool {rid}: concise {got:?} != summary of pool {expect:?}"));
+        }
+    }
+    if snap.concise.len() != pools.len() {
+        m.fail("c04.concise", "mismatch", format!("{} concise states for {} pools", snap.concise.len(), pools.len()));
+    }
+}
+
+struct Ctx {
+    init: Vec<PoolView>,
+    init_snap: AllocatorSnapshot,
+    universe: Vec<BTreeSet<(u32, u32)>>,
+    /// coupling items as pairs of resource ids
+    coupling_rids: Vec<(u32, u32)>,
+}
+
+/// Monitors on the result of one `alloc` op.
+fn alloc_monitors(
+    m: &mut Mon,
+    cx: &Ctx,
+    entries: &Rq,
+    pre_snap: &AllocatorSnapshot,
+    result: Option<&Allocation>,
+) {
+    let pre = views(pre_snap);
+    let pool_of = |rid: u32| pre.get(rid as usize);
+    let rq_s = rq_string(entries);
+    let granted = result.is_some();
+    let avail: Vec<bool> = entries
+        .iter()
+        .map(|e| entry_available(pool_of(e.0), cx.universe.get(e.0 as usize), e))
+        .collect();
+    let all_avail = avail.iter().all(|x| *x);
+
+    // coupled entries: on a Groups pool with one of the four group policies
+    let coupled: Vec<&RqEntry> = entries
+        .iter()
+        .filter(|e| e.1.is_coupling() && matches!(pool_of(e.0), Some(PoolView::Idx { is_groups: true, .. })))
+        .collect();
+    let coupled_rids: Vec<u32> = coupled.iter().map(|e| e.0).collect();
+    let active_coupling = cx
+        .coupling_rids
+        .iter()
+        .any(|(a, b)| coupled_rids.contains(a) && coupled_rids.contains(b));
+    let forced = coupled.iter().any(|e| e.1.is_force());
+
+    // statistics
+    {
+        let s = &mut *m.stats;
+        if granted { s.granted += 1 } else { s.refused += 1 }
+        if forced && granted { s.forced_granted += 1 }
+        if forced && !granted && all_avail { s.forced_refused += 1 }
+        if granted && active_coupling { s.allocs_active_coupling += 1 }
+        if entries.iter().any(|e| e.1 != Pol::A && e.2 == 0) { s.zero_amount_rq += 1 }
+        for (e, a) in entries.iter().zip(&avail) {
+            let slot = s.per.entry((kind_name(pool_of(e.0)), e.1)).or_default();
+            if granted { slot.0 += 1 } else if !*a { slot.1 += 1 } else { slot.2 += 1 }
+        }
+    }
+
+    // c16.admit
+    if !entries.iter().any(|e| e.1.is_force()) {
+        if all_avail && !granted {
+            m.fail("c16.admit", "spurious-refusal", format!("request {rq_s} refused although every entry is available"));
+        }
+        if !all_avail && granted {
+            m.fail("c16.admit", "spurious-grant", format!("request {rq_s} granted although entry availability is {avail:?}"));
+        }
+    }
+
+    // brute-force minima for the coupled entries
+    let minima = |e: &RqEntry| -> (Option<usize>, Option<usize>) {
+        let now = match pool_of(e.0) {
+            Some(PoolView::Idx { groups, .. }) => min_groups(groups, e.2),
+            _ => None,
+        };
+        let init = match cx.init.get(e.0 as usize) {
+            Some(PoolView::Idx { groups, .. }) => min_groups(groups, e.2),
+            _ => None,
+        };
+        (now, init)
+    };
+
+    if forced && !active_coupling {
+        if granted {
+            for e in coupled.iter().filter(|e| e.1.is_force()) {
+                let (now, init) = minima(e);
+                if now != init {
+                    m.fail(
+                        "c16.strict",
+                        "granted-with-more-groups",
+                        format!("request {rq_s} entry {}:{}:{} granted with minimum {now:?} groups, initial minimum {init:?}", e.0, e.1.tok(), e.2),
+                    );
+                }
+            }
+        } else if all_avail
+            && coupled.iter().all(|e| {
+                let (now, init) = minima(e);
+                now.is_some() && now == init
+            })
+        {
+            m.fail(
+                "c16.strict-refusal",
+                "tiebreak-exceeds-margin",
+                format!("request {rq_s} refused although available and every coupled entry needs no more groups than on the initial state"),
+            );
+        }
+    }
+
+    let Some(alloc) = result else {
+        return;
+    };
+
+    // c04.exact: one ResourceAllocation per entry, same rid order
+    if alloc.resources.len() != entries.len() {
+        m.fail("c04.exact", "entries", format!("request {rq_s}: {} resource allocations for {} entries", alloc.resources.len(), entries.len()));
+        return;
+    }
+    for (e, ra) in entries.iter().zip(&alloc.resources) {
+        let (rid, pol, amount) = *e;
+        let ra_rid = ra.resource_id.as_num();
+        if ra_rid != rid {
+            m.fail("c04.exact", "order", format!("request {rq_s}: allocation for resource {ra_rid} at the position of entry {rid}"));
+            continue;
+        }
+        let pool = pool_of(rid);
+        let want = match (pol, pool) {
+            (Pol::A, Some(PoolView::Idx { full, .. })) | (Pol::A, Some(PoolView::Sum { full, .. })) => *full,
+            (Pol::A, _) => 0,
+            _ => amount,
+        };
+        let got = ra.amount.total_fractions();
+        if got != want {
+            m.fail("c04.exact", "amount", format!("resource {rid}: allocation amount {got}, requested {want}"));
+        }
+        match pool {
+            Some(PoolView::Sum { full, .. }) => {
+                if !ra.indices.is_empty() {
+                    m.fail("c04.exact", "entries", format!("resource {rid}: sum pool allocation with {} indices", ra.indices.len()));
+                }
+                if pol == Pol::A && got != *full {
+                    m.fail("c16.all", "all", format!("resource {rid}: `all` holds {got} of {full}"));
+                }
+            }
+            Some(PoolView::Idx { is_groups, groups, .. }) => {
+                let total: u64 = ra
+                    .indices
+                    .iter()
+                    .map(|ai| if ai.fractions == 0 { FPU } else { ai.fractions as u64 })
+                    .sum();
+                if total != got {
+                    m.fail("c04.exact", "amount", format!("resource {rid}: index entries sum to {total}, allocation amount {got}"));
+                }
+                let n_frac = ra.indices.iter().filter(|ai| ai.fractions > 0).count();
+                let last_ok = n_frac == 0 || ra.indices.last().is_some_and(|ai| ai.fractions > 0);
+                if n_frac > 1 || !last_ok {
+                    let d = format!("resource {rid}: {n_frac} fractional entries, last entry fractional: {}", ra.indices.last().is_some_and(|ai| ai.fractions > 0));
+                    m.fail("c04.exact", "order", d.clone());
+                    m.fail("c16.single-fraction", "fractional-entries", d);
+                }
+                let whole: BTreeSet<(u32, u32)> = ra
+                    .indices
+                    .iter()
+                    .filter(|ai| ai.fractions == 0)
+                    .map(|ai| (ai.group_idx, ai.index.as_num()))
+                    .collect();
+                if pol == Pol::A && cx.universe.get(rid as usize) != Some(&whole) {
+                    m.fail("c16.all", "all", format!("resource {rid}: `all` holds whole {whole:?}, universe {:?}", cx.universe.get(rid as usize)));
+                }
+                if *is_groups && pol == Pol::S {
+                    let u = (amount / FPU) as usize;
+                    let nonempty = groups.iter().filter(|g| !g.free.is_empty()).count();
+                    let used: BTreeSet<u32> = whole.iter().map(|(g, _)| *g).collect();
+                    if used.len() != u.min(nonempty) {
+                        m.fail("c16.scatter", "spread", format!("resource {rid}: {} whole units over {} groups, {nonempty} groups had a free index", u, used.len()));
+                    }
+                }
+                if *is_groups && pol.is_coupling() && !active_coupling && amount > 0 {
+                    let used: BTreeSet<u32> = ra.indices.iter().map(|ai| ai.group_idx).collect();
+                    let best = min_groups(groups, amount);
+                    if Some(used.len()) != best {
+                        m.fail("c16.min-groups", "not-minimal", format!("resource {rid} {}:{amount}: allocation uses {} groups, minimum is {best:?}", pol.tok(), used.len()));
+                    }
+                }
+            }
+            Some(PoolView::Empty) | None => {
+                m.fail("c04.exact", "entries", format!("resource {rid}: allocation on an empty/unknown pool"));
+            }
+        }
+    }
+}
+
+/// Result of applying one op to the real code.
+#[derive(Clone, Copy, Debug, PartialEq, Eq)]
+pub enum Outcome {
+    /// `init`, `enabled`, `release`, or an `alloc` that returned `None`
+    Done,
+    /// `alloc` returned an allocation; its handle
+    Granted(usize),
+    /// the real code panicked (or the op could not be applied): the case is over
+    Aborted,
+}
+
+/// Something the op generator can drive: the tracing executor or the silent dry run.
+pub trait Driver {
+    fn apply(&mut self, op: &Op) -> Outcome;
+}
+
+/// Applies ops to the real code, prints the trace of the case and evaluates the monitors.
+pub struct Exec<'a> {
+    t: &'a mut Trace,
+    stats: &'a mut Stats,
+    items: Vec<(u32, Kind)>,
+    couplings: Vec<(u8, u8, u8, u8, u16)>,
+    va: Option<VerifAllocator>,
+    cx: Option<Ctx>,
+    live: Vec<(usize, Rc<Allocation>)>,
+    next_handle: usize,
+    // previous op, for the "immediately followed by" monitors
+    last_enabled: Option<(String, bool)>,
+    last_alloc: Option<(usize, AllocatorSnapshot)>,
+    aborted: bool,
+}
+
+impl<'a> Exec<'a> {
+    /// Prints the `case` header (`case.ops` is not used).
+    pub fn begin(idx: u64, subseed: u64, case: &Case, t: &'a mut Trace, stats: &'a mut Stats) -> Self {
+        t.case(idx, subseed, &header_params(case));
+        stats.cases += 1;
+        if !case.couplings.is_empty() {
+            stats.cases_with_coupling += 1;
+        }
+        Exec {
+            t,
+            stats,
+            items: case.items.clone(),
+            couplings: case.couplings.clone(),
+            va: None,
+            cx: None,
+            live: Vec::new(),
+            next_handle: 0,
+            last_enabled: None,
+            last_alloc: None,
+            aborted: false,
+        }
+    }
+
+    fn panic(&mut self, op: &str, msg: &str) -> Outcome {
+        let kw = panic_kw(msg);
+        *self.stats.panics.entry(format!("{op}:{kw}")).or_default() += 1;
+        self.t.out(&format!("!panic {kw}"));
+        self.aborted = true;
+        Outcome::Aborted
+    }
+
+    fn bad_op(&mut self) -> Outcome {
+        self.t.out("!bad-op");
+        self.aborted = true;
+        Outcome::Aborted
+    }
+
+    fn take_log(&mut self) -> Vec<SolverRecord> {
+        let log = take_solver_log();
+        self.stats.solver_calls += log.len() as u64;
+        self.stats.solver_none += log.iter().filter(|x| x.is_none()).count() as u64;
+        log
+    }
+
+    fn op_init(&mut self) -> Outcome {
+        self.stats.op("init");
+        self.t.op("init");
+        let case = Case { items: self.items.clone(), couplings: self.couplings.clone(), ops: vec![] };
+        let (desc, names) = build_descriptor(&case);
+        let a = match catch(|| VerifAllocator::new(&desc, names)) {
+            Err(msg) => return self.panic("init", &msg),
+            Ok(a) => a,
+        };
+        let snap = a.snapshot();
+        print_snapshot(self.t, &snap);
+        let init = views(&snap);
+        let universe = init
+            .iter()
+            .map(|p| match p {
+                PoolView::Idx { groups, .. } => groups
+                    .iter()
+                    .enumerate()
+                    .flat_map(|(g, gs)| gs.free.iter().map(move |i| (g as u32, *i)))
+                    .collect(),
+                _ => BTreeSet::new(),
+            })
+            .collect();
+        let coupling_rids = self
+            .couplings
+            .iter()
+            .filter_map(|(i1, _, i2, _, _)| Some((self.items.get(*i1 as usize)?.0, self.items.get(*i2 as usize)?.0)))
+            .collect();
+        self.live.clear();
+        self.next_handle = 0;
+        let c = Ctx { init, init_snap: snap.clone(), universe, coupling_rids };
+        state_monitors(&mut Mon { t: self.t, stats: self.stats }, &snap, &c.universe, &self.live);
+        self.cx = Some(c);
+        self.va = Some(a);
+        Outcome::Done
+    }
+
+    fn op_enabled(&mut self, rq: &Rq) -> Outcome {
+        self.stats.op("enabled");
+        let req = build_request(rq);
+        let rq_s = rq_string(&entries_of(&req));
+        if self.va.is_none() || self.cx.is_none() {
+            self.t.op(&format!("enabled {rq_s} -"));
+            return self.bad_op();
+        }
+        clear_solver_log();
+        let r = {
+            let a = self.va.as_ref().unwrap();
+            catch(|| a.is_enabled(&req))
+        };
+        let log = self.take_log();
+        self.t.op(&format!("enabled {rq_s} {}", sol_string(&log)));
+        let b = match r {
+            Err(msg) => return self.panic("enabled", &msg),
+            Ok(b) => b,
+        };
+        if b {
+            self.stats.enabled_true += 1
+        } else {
+            self.stats.enabled_false += 1
+        }
+        self.t.out(&format!("enabled {}", b as u8));
+        let snap = self.va.as_ref().unwrap().snapshot();
+        let c = self.cx.as_ref().unwrap();
+        state_monitors(&mut Mon { t: self.t, stats: self.stats }, &snap, &c.universe, &self.live);
+        self.last_enabled = Some((rq_s, b));
+        Outcome::Done
+    }
+
+    fn op_alloc(&mut self, rq: &Rq, prev_enabled: Option<(String, bool)>) -> Outcome {
+        self.stats.op("alloc");
+        let h = self.next_handle;
+        self.next_handle += 1;
+        let req = build_request(rq);
+        let entries = entries_of(&req);
+        let rq_s = rq_string(&entries);
+        if self.va.is_none() || self.cx.is_none() {
+            self.t.op(&format!("alloc {h} {rq_s} - -"));
+            return self.bad_op();
+        }
+        let pre = self.va.as_ref().unwrap().snapshot();
+        clear_solver_log();
+        let r = {
+            let a = self.va.as_mut().unwrap();
+            catch(|| a.try_allocate(&req))
+        };
+        let log = self.take_log();
+        let sol = sol_string(&log);
+        let res = match r {
+            Err(msg) => {
+                self.t.op(&format!("alloc {h} {rq_s} {sol} -"));
+                return self.panic("alloc", &msg);
+            }
+            Ok(res) => res,
+        };
+        let fp = fp_string(res.as_deref());
+        if fp != "-" {
+            self.stats.ops_with_fp += 1;
+        }
+        self.t.op(&format!("alloc {h} {rq_s} {sol} {fp}"));
+        self.t.out(if res.is_some() { "res some" } else { "res none" });
+        if let Some(al) = &res {
+            for ra in &al.resources {
+                self.t.out(&format!(
+                    "alloc {} {} {}",
+                    ra.resource_id.as_num(),
+                    ra.amount.total_fractions(),
+                    list(
+                        ra.indices
+                            .iter()
+                            .map(|ai| format!("{}.{}.{}", ai.index.as_num(), ai.group_idx, ai.fractions))
+                    )
+                ));
+            }
+            // statistics: was the fractional index picked from the fraction map?
+            let pv = views(&pre);
+            for ra in &al.resources {
+                if let (Some(last), Some(PoolView::Idx { groups, .. })) =
+                    (ra.indices.last(), pv.get(ra.resource_id.as_num() as usize))
+                    && last.fractions > 0
+                    && groups
+                        .iter()
+                        .any(|g| g.fr.iter().any(|(i, v)| *i == last.index.as_num() && *v > 0))
+                {
+                    self.stats.fp_from_map += 1;
+                }
+            }
+        }
+        let post = self.va.as_ref().unwrap().snapshot();
+        print_snapshot(self.t, &post);
+        let c = self.cx.as_ref().unwrap();
+        let mut m = Mon { t: self.t, stats: self.stats };
+        if let Some((e_rq, e_res)) = &prev_enabled
+            && *e_rq == rq_s
+            && *e_res != res.is_some()
+        {
+            m.fail(
+                "c16.agree",
+                "enabled-vs-grant",
+                format!("request {rq_s}: is_enabled = {e_res}, try_allocate granted = {}", res.is_some()),
+            );
+        }
+        alloc_monitors(&mut m, c, &entries, &pre, res.as_deref());
+        let outcome = if let Some(al) = res {
+            self.live.push((h, al));
+            self.last_alloc = Some((h, pre));
+            Outcome::Granted(h)
+        } else {
+            Outcome::Done
+        };
+        state_monitors(&mut m, &post, &c.universe, &self.live);
+        outcome
+    }
+
+    fn op_release(&mut self, h: usize, prev_alloc: Option<(usize, AllocatorSnapshot)>) -> Outcome {
+        self.stats.op("release");
+        self.t.op(&format!("release {h}"));
+        let pos = self.live.iter().position(|(lh, _)| *lh == h);
+        let (true, true, Some(pos)) = (self.va.is_some(), self.cx.is_some(), pos) else {
+            return self.bad_op();
+        };
+        let (_, al) = self.live.remove(pos);
+        let r = {
+            let a = self.va.as_mut().unwrap();
+            catch(|| a.release_allocation(al))
+        };
+        if let Err(msg) = r {
+            return self.panic("release", &msg);
+        }
+        let post = self.va.as_ref().unwrap().snapshot();
+        print_snapshot(self.t, &post);
+        let c = self.cx.as_ref().unwrap();
+        let mut m = Mon { t: self.t, stats: self.stats };
+        if let Some((ah, pre)) = &prev_alloc
+            && *ah == h
+            && normalize(pre) != normalize(&post)
+        {
+            m.fail(
+                "c04.release",
+                "roundtrip",
+                format!(
+                    "alloc {h} + release {h}: state {:?} != state before the alloc {:?}",
+                    normalize(&post),
+                    normalize(pre)
+                ),
+            );
+        }
+        state_monitors(&mut m, &post, &c.universe, &self.live);
+        Outcome::Done
+    }
+
+    /// c04.release (b) + `end`.
+    pub fn finish(self) {
+        // everything released => the initial state is restored
+        if !self.aborted
+            && self.live.is_empty()
+            && self.next_handle > 0
+            && let (Some(a), Some(c)) = (self.va.as_ref(), self.cx.as_ref())
+        {
+            let fin = a.snapshot();
+            if normalize(&fin) != normalize(&c.init_snap) {
+                Mon { t: self.t, stats: self.stats }.fail(
+                    "c04.release",
+                    "final",
+                    format!(
+                        "all handles released: state {:?} != initial state {:?}",
+                        normalize(&fin),
+                        normalize(&c.init_snap)
+                    ),
+                );
+            }
+        }
+        self.t.end();
+    }
+}
+
+impl Driver for Exec<'_> {
+    fn apply(&mut self, op: &Op) -> Outcome {
+        if self.aborted {
+            return Outcome::Aborted;
+        }
+        let prev_enabled = self.last_enabled.take();
+        let prev_alloc = self.last_alloc.take();
+        match op {
+            Op::Init => self.op_init(),
+            Op::Enabled(rq) => self.op_enabled(rq),
+            Op::Alloc(rq) => self.op_alloc(rq, prev_enabled),
+            Op::Release(h) => self.op_release(*h, prev_alloc),
+        }
+    }
+}
+
+/// Runs the ops of `case` on the real code and prints the trace of the case.
+pub fn execute(idx: u64, subseed: u64, case: &Case, t: &mut Trace, stats: &mut Stats) {
+    let mut e = Exec::begin(idx, subseed, case, t, stats);
+    for op in &case.ops {
+        if e.apply(op) == Outcome::Aborted {
+            break;
+        }
+    }
+    e.finish();
+}
+
+// ------------------------------------------------------------------------------------------------
+// Generator
+// ------------------------------------------------------------------------------------------------
+
+fn shuffle<T>(rng: &mut Rng, xs: &mut [T]) {
+    for i in (1..xs.len()).rev() {
+        let j = rng.below(i as u64 + 1) as usize;
+        xs.swap(i, j);
+    }
+}
+
+fn gen_kind(rng: &mut Rng, thorough: bool) -> Kind {
+    match rng.weighted(&[2, 2, 6, 3]) {
+        0 => Kind::List(rng.range(1, 6) as u32),
+        1 => {
+            let start = rng.range(0, 5) as u32;
+            let len = rng.range(1, 6) as u32;
+            Kind::Range(start, start + len - 1)
+        }
+        2 => {
+            let n = 1 + rng.weighted(&[2, 5, 4, 3]);
+            let sizes = match rng.weighted(&[45, 25, 15, 15]) {
+                0 => vec![rng.range(1, 4) as u32; n],
+                1 => (0..n).map(|_| rng.range(1, 4) as u32).collect(),
+                2 => (0..n).map(|_| *rng.pick(&[1u32, 1, 2, 3, 5, 6, 6])).collect(),
+                // bimodal: small and big groups side by side
+                _ => (0..n).map(|_| *rng.pick(&[1u32, 1, 2, 5, 6, 6])).collect(),
+            };
+            Kind::Groups(sizes)
+        }
+        _ => {
+            let max_q = if thorough { 32 } else { 19 };
+            Kind::Sum(rng.range(1, max_q) * 2500)
+        }
+    }
+}
+
+fn kind_units(kind: &Kind) -> u64 {
+    match kind {
+        Kind::List(n) => *n as u64,
+        Kind::Range(s, e) => (*e - *s + 1) as u64,
+        Kind::Groups(sizes) => sizes.iter().map(|x| *x as u64).sum(),
+        Kind::Sum(size) => size.div_ceil(FPU),
+    }
+}
+
+fn gen_couplings(rng: &mut Rng, case: &Case) -> Vec<(u8, u8, u8, u8, u16)> {
+    let eligible: Vec<(u8, u8)> = case
+        .items
+        .iter()
+        .enumerate()
+        .filter_map(|(i, (_, k))| match k {
+            Kind::Groups(sizes) if sizes.len() >= 2 => Some((i as u8, sizes.len() as u8)),
+            _ => None,
+        })
+        .collect();
+    if eligible.is_empty() || !rng.chance(2, 5) {
+        return vec![];
+    }
+    let n = rng.range(1, 4);
+    let mut items: Vec<ResourceDescriptorCouplingItem> = (0..n)
+        .map(|_| {
+            let (i1, n1) = *rng.pick(&eligible);
+            // prefer a different item when there is one
+            let (i2, n2) = if eligible.len() >= 2 && rng.chance(3, 4) {
+                let others: Vec<(u8, u8)> = eligible.iter().copied().filter(|(i, _)| *i != i1).collect();
+                *rng.pick(&others)
+            } else {
+                *rng.pick(&eligible)
+            };
+            let mut it = ResourceDescriptorCouplingItem {
+                resource1_idx: i1,
+                group1_idx: (rng.below(n1 as u64) as u8).into(),
+                resource2_idx: i2,
+                group2_idx: (rng.below(n2 as u64) as u8).into(),
+                weight: *rng.pick(&[1u16, 64, 128, 256, 1024, 3000]),
+            };
+            it.normalize();
+            it
+        })
+        .collect();
+    items.sort();
+    items.dedup_by(|b, a| {
+        a.resource1_idx == b.resource1_idx
+            && a.group1_idx == b.group1_idx
+            && a.resource2_idx == b.resource2_idx
+            && a.group2_idx == b.group2_idx
+    });
+    items
+        .iter()
+        .map(|w| (w.resource1_idx, w.group1_idx.as_num(), w.resource2_idx, w.group2_idx.as_num(), w.weight))
+        .collect()
+}
+
+fn gen_amount(rng: &mut Rng, pool_units: u64) -> u64 {
+    // the zero amount is rejected by `validate()` upstream: malformed stream only
+    if rng.chance(1, 50) {
+        return 0;
+    }
+    loop {
+        let units = if pool_units > 4 && rng.chance(1, 5) {
+            rng.range(0, pool_units + 1)
+        } else {
+            rng.weighted(&[5, 10, 5, 2, 1]) as u64
+        };
+        let fr = *rng.pick(&[0u64, 0, 0, 0, 2500, 2500, 5000, 5000, 7500, 7500]);
+        let amount = units * FPU + fr;
+        if amount > 0 {
+            return amount;
+        }
+    }
+}
+
+fn gen_variant(rng: &mut Rng, case: &Case) -> Rq {
+    let n = 1 + rng.weighted(&[5, 4, 2]);
+    let existing: Vec<u32> = case.items.iter().map(|(r, _)| *r).collect();
+    let other: Vec<u32> = (0..=5).filter(|r| !existing.contains(r)).collect();
+    let mut used: Vec<u32> = Vec::new();
+    let mut rq = Rq::new();
+    for _ in 0..n {
+        let pool: Vec<u32> = if rng.chance(1, 20) { &other } else { &existing }
+            .iter()
+            .copied()
+            .filter(|r| !used.contains(r))
+            .collect();
+        if pool.is_empty() {
+            continue;
+        }
+        let rid = *rng.pick(&pool);
+        used.push(rid);
+        let pol = [Pol::C, Pol::T, Pol::S, Pol::FC, Pol::FT, Pol::A][rng.weighted(&[25, 20, 15, 12, 12, 6])];
+        let units = case
+            .items
+            .iter()
+            .find(|(r, _)| *r == rid)
+            .map(|(_, k)| kind_units(k))
+            .unwrap_or(0);
+        let amount = if pol == Pol::A { 0 } else { gen_amount(rng, units) };
+        rq.push((rid, pol, amount));
+    }
+    rq
+}
+
+/// The static part of a case (descriptor, couplings) and its pool of request templates.
+fn gen_static(rng: &mut Rng, thorough: bool) -> (Case, Vec<Rq>) {
+    let mut case = Case::default();
+    let n_items = 1 + rng.weighted(&[3, 4, 3]);
+    let mut rids: Vec<u32> = (0..=4).collect();
+    shuffle(rng, &mut rids);
+    rids.truncate(n_items);
+    for rid in rids {
+        let kind = gen_kind(rng, thorough);
+        case.items.push((rid, kind));
+    }
+    case.couplings = gen_couplings(rng, &case);
+    let (mut desc, _) = build_descriptor(&case);
+    if desc.validate(false).is_err() && !case.couplings.is_empty() {
+        case.couplings.clear();
+        (desc, _) = build_descriptor(&case);
+    }
+    if let Err(e) = desc.validate(false) {
+        // cannot happen with the kinds generated above; never feed an invalid descriptor
+        eprintln!("alloc gen: invalid descriptor {desc:?}: {e:?}; replaced");
+        case.items = vec![(0, Kind::Range(0, 3))];
+        case.couplings.clear();
+    }
+    let n_variants = rng.range(2, 6);
+    let variants: Vec<Rq> = (0..n_variants).map(|_| gen_variant(rng, &case)).collect();
+    (case, variants)
+}
+
+/// Generates the op sequence of a case while applying it to `driver`: which handles are live depends
+/// on the results of the real code. Stops when the real code panics.
+fn gen_ops(rng: &mut Rng, variants: &[Rq], driver: &mut dyn Driver) -> Vec<Op> {
+    let mut ops: Vec<Op> = Vec::new();
+    let mut live: Vec<usize> = Vec::new();
+    // applies one op; None = the case is over
+    let mut apply = |ops: &mut Vec<Op>, live: &mut Vec<usize>, op: Op| -> Option<Outcome> {
+        let out = driver.apply(&op);
+        if let Op::Release(h) = &op {
+            live.retain(|x| x != h);
+        }
+        ops.push(op);
+        match out {
+            Outcome::Aborted => None,
+            Outcome::Granted(h) => {
+                live.push(h);
+                Some(out)
+            }
+            Outcome::Done => Some(out),
+        }
+    };
+    if apply(&mut ops, &mut live, Op::Init).is_none() {
+        return ops;
+    }
+    let n_steps = rng.range(8, 40);
+    for _ in 0..n_steps {
+        let step: Option<()> = (|| {
+            match rng.weighted(&[4, 2, 3, 1, 1]) {
+                0 => {
+                    let rq = rng.pick(variants).clone();
+                    apply(&mut ops, &mut live, Op::Enabled(rq.clone()))?;
+                    apply(&mut ops, &mut live, Op::Alloc(rq))?;
+                }
+                1 => {
+                    let rq = rng.pick(variants).clone();
+                    apply(&mut ops, &mut live, Op::Alloc(rq))?;
+                }
+                2 => {
+                    if !live.is_empty() {
+                        let h = live[rng.below(live.len() as u64) as usize];
+                        apply(&mut ops, &mut live, Op::Release(h))?;
+                    }
+                }
+                3 => {
+                    let rq = rng.pick(variants).clone();
+                    if let Outcome::Granted(h) = apply(&mut ops, &mut live, Op::Alloc(rq))? {
+                        apply(&mut ops, &mut live, Op::Release(h))?;
+                    }
+                }
+                _ => {
+                    let rq = rng.pick(variants).clone();
+                    apply(&mut ops, &mut live, Op::Enabled(rq))?;
+                }
+            }
+            Some(())
+        })();
+        if step.is_none() {
+            return ops;
+        }
+    }
+    // release everything that is still live, in random order
+    let mut rest = live.clone();
+    shuffle(rng, &mut rest);
+    for h in rest {
+        if apply(&mut ops, &mut live, Op::Release(h)).is_none() {
+            break;
+        }
+    }
+    ops
+}
+
+/// Silent driver: applies the ops to a real allocator without tracing (used by `gen_case`).
+struct DryRun {
+    case: Case,
+    va: Option<VerifAllocator>,
+    live: Vec<(usize, Rc<Allocation>)>,
+    next_handle: usize,
+}
+
+impl Driver for DryRun {
+    fn apply(&mut self, op: &Op) -> Outcome {
+        let r = match op {
+            Op::Init => {
+                let (desc, names) = build_descriptor(&self.case);
+                catch(|| VerifAllocator::new(&desc, names)).map(|a| {
+                    self.va = Some(a);
+                    Outcome::Done
+                })
+            }
+            Op::Enabled(rq) => {
+                let Some(a) = self.va.as_ref() else { return Outcome::Aborted };
+                let req = build_request(rq);
+                catch(|| a.is_enabled(&req)).map(|_| Outcome::Done)
+            }
+            Op::Alloc(rq) => {
+                let Some(a) = self.va.as_mut() else { return Outcome::Aborted };
+                let h = self.next_handle;
+                self.next_handle += 1;
+                let req = build_request(rq);
+                catch(|| a.try_allocate(&req)).map(|res| match res {
+                    None => Outcome::Done,
+                    Some(al) => {
+                        self.live.push((h, al));
+                        Outcome::Granted(h)
+                    }
+                })
+            }
+            Op::Release(h) => {
+                let pos = self.live.iter().position(|(lh, _)| lh == h);
+                let (Some(a), Some(pos)) = (self.va.as_mut(), pos) else { return Outcome::Aborted };
+                let (_, al) = self.live.remove(pos);
+                catch(|| a.release_allocation(al)).map(|_| Outcome::Done)
+            }
+        };
+        clear_solver_log();
+        r.unwrap_or(Outcome::Aborted)
+    }
+}
+
+/// Generates a complete case (the op sequence is generated along a silent dry run of the real
+/// allocator). `gen` mode does the same in a single pass with the tracing executor as the driver.
+pub fn gen_case(rng: &mut Rng, thorough: bool) -> Case {
+    let (mut case, variants) = gen_static(rng, thorough);
+    let mut dry = DryRun { case: case.clone(), va: None, live: Vec::new(), next_handle: 0 };
+    case.ops = gen_ops(rng, &variants, &mut dry);
+    case
+}
+
+/// `gen_case` + `execute` in one pass: prints exactly what `execute(idx, subseed, &gen_case(..))` prints.
+pub fn gen_and_execute(idx: u64, subseed: u64, thorough: bool, t: &mut Trace, stats: &mut Stats) {
+    let mut rng = Rng::new(subseed);
+    let (case, variants) = gen_static(&mut rng, thorough);
+    let mut e = Exec::begin(idx, subseed, &case, t, stats);
+    gen_ops(&mut rng, &variants, &mut e);
+    e.finish();
+}
+
+// ------------------------------------------------------------------------------------------------
+// Replay parser
+// ------------------------------------------------------------------------------------------------
+
+fn parse_rq(s: &str) -> Option<Rq> {
+    if s == "-" {
+        return Some(vec![]);
+    }
+    s.split(',')
+        .map(|e| {
+            let parts: Vec<&str> = e.split(':').collect();
+            let rid: u32 = parts.first()?.parse().ok()?;
+            match (parts.get(1).copied()?, parts.get(2)) {
+                ("A", None) => Some((rid, Pol::A, 0)),
+                (p, Some(a)) if parts.len() == 3 => {
+                    let pol = match p {
+                        "C" => Pol::C,
+                        "FC" => Pol::FC,
+                        "T" => Pol::T,
+                        "FT" => Pol::FT,
+                        "S" => Pol::S,
+                        _ => return None,
+                    };
+                    Some((rid, pol, a.parse().ok()?))
+                }
+                _ => None,
+            }
+        })
+        .collect()
+}
+
+fn parse_case_params(toks: &[&str]) -> Option<Case> {
+    let mut case = Case::default();
+    for tok in toks {
+        let p: Vec<&str> = tok.split(':').collect();
+        match p.first().copied()? {
+            "d" => {
+                let rid: u32 = p.get(1)?.parse().ok()?;
+                let kind = match (p.get(2).copied()?, p.len()) {
+                    ("L", 4) => Kind::List(p[3].parse().ok()?),
+                    ("R", 5) => Kind::Range(p[3].parse().ok()?, p[4].parse().ok()?),
+                    ("G", 4) => Kind::Groups(p[3].split('.').map(|x| x.parse().ok()).collect::<Option<Vec<u32>>>()?),
+                    ("S", 4) => Kind::Sum(p[3].parse().ok()?),
+                    _ => return None,
+                };
+                case.items.push((rid, kind));
+            }
+            "w" if p.len() == 6 => {
+                case.couplings.push((
+                    p[1].parse().ok()?,
+                    p[2].parse().ok()?,
+                    p[3].parse().ok()?,
+                    p[4].parse().ok()?,
+                    p[5].parse().ok()?,
+                ));
+            }
+            _ => return None,
+        }
+    }
+    Some(case)
+}
+
+fn parse_op(toks: &[&str]) -> Option<Op> {
+    match toks.first().copied()? {
+        "init" => Some(Op::Init),
+        "enabled" => Some(Op::Enabled(parse_rq(toks.get(1)?)?)),
+        "alloc" => {
+            let _h: usize = toks.get(1)?.parse().ok()?;
+            Some(Op::Alloc(parse_rq(toks.get(2)?)?))
+        }
+        "release" => Some(Op::Release(toks.get(1)?.parse().ok()?)),
+        _ => None,
+    }
+}
+
+fn replay_main() {
+    let mut t = Trace::new();
+    let mut stats = Stats::default();
+    let mut cur: Option<(u64, u64, Case)> = None;
+    let stdin = std::io::stdin();
+    for line in stdin.lock().lines() {
+        let line = line.expect("stdin");
+        let toks: Vec<&str> = line.split_ascii_whitespace().collect();
+        match toks.first().copied() {
+            Some("case") => {
+                if let Some((idx, subseed, case)) = cur.take() {
+                    execute(idx, subseed, &case, &mut t, &mut stats);
+                }
+                let idx = toks.get(1).and_then(|x| x.parse().ok());
+                let subseed = toks.get(2).and_then(|x| x.parse().ok());
+                match (idx, subseed, parse_case_params(toks.get(3..).unwrap_or(&[]))) {
+                    (Some(idx), Some(subseed), Some(case)) => cur = Some((idx, subseed, case)),
+                    _ => eprintln!("alloc replay: malformed case header skipped: {line}"),
+                }
+            }
+            Some("op") => {
+                if let Some((_, _, case)) = cur.as_mut() {
+                    match parse_op(&toks[1..]) {
+                        Some(op) => case.ops.push(op),
+                        None => eprintln!("alloc replay: malformed op skipped: {line}"),
+                    }
+                }
+            }
+            Some("end") => {
+                if let Some((idx, subseed, case)) = cur.take() {
+                    execute(idx, subseed, &case, &mut t, &mut stats);
+                }
+            }
+            _ => {}
+        }
+    }
+    if let Some((idx, subseed, case)) = cur.take() {
+        execute(idx, subseed, &case, &mut t, &mut stats);
+    }
+    t.flush();
+}
+
+pub fn main(mode: &str, args: &[String]) {
+    match mode {
+        "gen" => {
+            let a = GenArgs::parse(args);
+            let mut t = Trace::new();
+            let mut stats = Stats::default();
+            for k in 0..a.cases {
+                let subseed = a.case_seed(k);
+                if a.has("--two-pass") {
+                    // same output, generated by a silent dry run first (self-check of the generator)
+                    let case = gen_case(&mut Rng::new(subseed), a.thorough);
+                    execute(k, subseed, &case, &mut t, &mut stats);
+                } else {
+                    gen_and_execute(k, subseed, a.thorough, &mut t, &mut stats);
+                }
+            }
+            t.flush();
+            if a.has("--stats") {
+                stats.print();
+            }
+        }
+        "replay" => replay_main(),
+        _ => {
+            eprintln!("component alloc: unknown mode {mode} (gen|replay)");
+            std::process::exit(2);
+        }
+    }
 }
